@@ -113,6 +113,7 @@ type run struct {
 	cancelled      bool
 	heldAtReturn   int
 	harnessProblem string
+	timed          timedInfo
 }
 
 var (
